@@ -177,8 +177,8 @@ def gen_call(rng, n):
 
 def generate(rng, tier, scale=1):
     quick = tier == "quick"
-    n = (260 if quick else 6000) * scale
-    cases = gen_float(rng, n) + gen_call(rng, (160 if quick else 3000) * scale)
+    n = (260 if quick else 3500) * scale
+    cases = gen_float(rng, n) + gen_call(rng, (160 if quick else 1500) * scale)
     if scale == 1:
         # every int lead 1..300 with a fixed, well conditioned order-3 pole set (1/2, 1/7, 3/7 scaled)
         for g in (range(1, 301) if not quick else BAD_INTS[:12] + [1, 2, 16]):
